@@ -236,6 +236,45 @@ def check_exec(kind, node, mi, mo, h, runner="sync"):
     return out
 
 
+def check_cached_pair(kind, spec, hist, mi, mo, h):
+    """Caching x renames: the un-renamed node and its renamed relative (same function, same argument values) run
+    against ONE cache, in both orders.  Whether the second run is a hit or a miss is not C06's business; what each
+    returns is: results under ITS current output names, each holding the value of the right original output."""
+    from hypergraph import Graph
+    from hypergraph.cache import InMemoryCache
+
+    from ..dsl import run_sync, touch
+
+    out = []
+    spec2 = dict(spec, cache=True, shared_ok=True)
+    spec2.pop("ctor_rename_in", None)
+    a = build_node(spec2, h)
+    b = build_node(spec2, h)
+    for attr, mapping in hist:
+        touch(b)
+        b = b.with_inputs(dict(mapping)) if attr == "inputs" else (b.with_outputs(dict(mapping)) if attr == "outputs" else b.with_name(mapping))
+    vals = {o: ("val", o) for o in mi.order}
+    fed = ["a"] + (["b"] if "c" in mi.order else [])
+    ins_a = {o: vals[o] for o in fed}
+    ins_b = {mi.current_of(o): vals[o] for o in fed}
+    for order in ("orig-first", "renamed-first"):
+        cache = InMemoryCache()
+        seq = [("orig", a, ins_a), ("renamed", b, ins_b)]
+        if order == "renamed-first":
+            seq.reverse()
+        for who, node, ins in seq:
+            res = run_sync(Graph([node]), dict(ins), h, cache=cache)
+            names = tuple(mo.order) if who == "orig" else mo.names
+            if set(res.values) != set(names):
+                out.append(("cached-result-names", f"{order}: the {who} node returned results under {sorted(res.values)} expected {sorted(names)}"))
+                continue
+            for i, o in enumerate(mo.order):
+                v = res.values[o if who == "orig" else mo.current_of(o)]
+                if not (v[1] == i if len(mo.order) > 1 else v[1] == 0):
+                    out.append(("cached-result-position", f"{order}: output {o if who == 'orig' else mo.current_of(o)} of the {who} node holds {jsonable(v)} (expected the value of original output {o})"))
+    return out
+
+
 def run_history(kind, hist, acc, via_ctor=False):
     """hist: list of (attr, mapping).  via_ctor: the first batch (inputs) goes through the constructor."""
     h = H()
@@ -290,6 +329,11 @@ def run_history(kind, hist, acc, via_ctor=False):
             vs += check_exec(kind, node, mi, mo, h)
         except Exception as e:  # noqa: BLE001
             vs.append(("execution-failed" if kind not in ("graph", "graph-map") else "graphnode-execution-failed", f"running the renamed node failed: {type(e).__name__}: {str(e)[:150]}"))
+    if not vs and kind in ("fn", "fn2") and not via_ctor:
+        try:
+            vs += check_cached_pair(kind, spec, hist, mi, mo, h)
+        except Exception as e:  # noqa: BLE001
+            vs.append(("cached-execution-failed", f"running the node and its renamed relative against one cache failed: {type(e).__name__}: {str(e)[:150]}"))
     return vs
 
 
